@@ -168,9 +168,18 @@ def hash_order_uses(tree):
     return out
 
 
-def _stmts_pure(stmts, allowed_calls, cls, depth, findings, where=""):
+PURE_BUILTINS = {"isinstance", "len", "str", "repr", "format", "type", "enumerate", "range", "zip", "min", "max", "sorted", "list", "tuple",
+                 "any", "all", "bool", "int", "float", "abs", "sum", "TypeError", "ValueError"}
+PURE_METHODS = {"join", "format", "startswith", "endswith", "strip", "lower", "upper", "get", "keys", "values", "items", "count", "index"}
+
+
+def _stmts_pure(stmts, allowed_calls, cls, depth, findings, where="", resolve=None, unknown=None):
     """no store to an attribute / subscript, no delete, no call other than the allowed builtins,
-    exception constructors and - followed into their bodies - methods of the same class"""
+    exception constructors and - followed into their bodies - methods of the same class and functions
+    of the package that `resolve(name)` finds (a validation helper moved into a shared module).
+    A call that cannot be followed goes to `unknown` (the frame cannot be established syntactically:
+    not attempted), a store goes to `findings` (the frame is broken)."""
+    unknown = unknown if unknown is not None else findings
     for stmt in stmts:
         for n in ast.walk(stmt):
             targets = []
@@ -189,22 +198,55 @@ def _stmts_pure(stmts, allowed_calls, cls, depth, findings, where=""):
             if isinstance(n, ast.Call):
                 f = n.func
                 if isinstance(f, ast.Name):
-                    if f.id not in allowed_calls:
-                        findings.append((n.lineno, f"call to {f.id}() in the validation prefix{where}"))
+                    if f.id in allowed_calls or f.id in PURE_BUILTINS:
+                        continue
+                    node = resolve(f.id) if resolve is not None else None
+                    if node is not None and depth > 0:
+                        _stmts_pure(node.body, allowed_calls, None, depth - 1, findings, where=f" (in {f.id})", resolve=resolve, unknown=unknown)
+                        continue
+                    unknown.append((n.lineno, f"call to {f.id}() in the validation prefix{where}"))
                 elif isinstance(f, ast.Attribute):
                     if isinstance(f.value, ast.Name) and f.value.id == "self" and f"self.{f.attr}" in allowed_calls:
                         continue
+                    if f.attr in PURE_METHODS and isinstance(f.value, (ast.Constant, ast.JoinedStr)):
+                        continue          # ", ".join(..), "..".format(..): building a message
                     helper = None
                     if cls is not None and isinstance(f.value, ast.Name) and f.value.id in ("self", "cls", cls.name):
                         helper = next((m for m in cls.body if isinstance(m, ast.FunctionDef) and m.name == f.attr), None)
                     if helper is not None and depth > 0:
                         # a helper of the same class: the frame condition is checked on its body
-                        _stmts_pure(helper.body, allowed_calls, cls, depth - 1, findings, where=f" (in {cls.name}.{helper.name})")
+                        _stmts_pure(helper.body, allowed_calls, cls, depth - 1, findings, where=f" (in {cls.name}.{helper.name})", resolve=resolve, unknown=unknown)
                         continue
-                    findings.append((n.lineno, f"call to {ast.unparse(f)}() in the validation prefix{where}"))
+                    unknown.append((n.lineno, f"call to {ast.unparse(f)}() in the validation prefix{where}"))
 
 
-def prefix_is_pure(fn, stop_call=("copy", "deepcopy"), allowed_calls=("isinstance", "len", "ValueError", "TypeError"), cls=None):
+def package_resolver(tree, parse):
+    """name -> FunctionDef of a module-level function of this module or of a function imported from
+    another module of the package (`from openskill.x import name`); parse(relpath) returns a module AST"""
+    local = {n.name: n for n in tree.body if isinstance(n, ast.FunctionDef)}
+    imported = {}
+    for n in tree.body:
+        if isinstance(n, ast.ImportFrom) and n.module and n.module.startswith("openskill") and n.level == 0:
+            for a in n.names:
+                imported[a.asname or a.name] = (n.module.replace(".", "/") + ".py", a.name)
+    cache = {}
+
+    def resolve(name):
+        if name in local:
+            return local[name]
+        if name in imported:
+            rel, real = imported[name]
+            try:
+                if rel not in cache:
+                    cache[rel] = parse(rel)
+                return next((x for x in cache[rel].body if isinstance(x, ast.FunctionDef) and x.name == real), None)
+            except Exception:  # noqa: BLE001
+                return None
+        return None
+    return resolve
+
+
+def prefix_is_pure(fn, stop_call=("copy", "deepcopy"), allowed_calls=("isinstance", "len", "ValueError", "TypeError"), cls=None, resolve=None, unknown=None):
     """Frame scan for a validation prefix: the statements of `fn` before the first
     statement that calls <stop_call> may not store to an attribute or subscript, delete,
     or call anything but the allowed builtins / exception constructors, `self.<method>`
@@ -223,7 +265,7 @@ def prefix_is_pure(fn, stop_call=("copy", "deepcopy"), allowed_calls=("isinstanc
         if is_stop(stmt):
             break
         nprefix += 1
-        _stmts_pure([stmt], allowed_calls, cls, 3, findings)
+        _stmts_pure([stmt], allowed_calls, cls, 3, findings, resolve=resolve, unknown=unknown)
     else:
         findings.append((fn.lineno, "no call to copy.deepcopy found: cannot delimit the validation prefix"))
     return findings, nprefix
